@@ -4,8 +4,10 @@ against it (applied to /repo, undone afterwards), store it under seeded/<ID>/.""
 import json, os, shutil, subprocess, sys
 ID = sys.argv[1]
 props = sys.argv[2:]
-out = f"/tmp/mut_out/{ID}"
-wt = f"/tmp/mut/{ID}"
+RND = os.environ.get("MUT_ROUND", "")          # "" = first round, "2" = second round …
+out = f"/tmp/mut{RND}_out/{ID}"
+wt = f"/tmp/mut{RND}/{ID}"
+SID = ID + (f"-r{RND}" if RND else "")          # directory name under seeded/
 env = dict(os.environ, CARGO_NET_OFFLINE="true", ATS_EVAL_NO_PROOF="1")
 def sh(cmd, cwd=None):
     return subprocess.run(cmd, shell=True, cwd=cwd, env=env, stdout=subprocess.PIPE, stderr=subprocess.STDOUT, text=True)
@@ -13,16 +15,20 @@ meta = json.load(open(f"{out}/meta.json"))
 demo = meta.get("demo_test", "")
 log = []
 # 1. confirm in the scratch worktree
-sh("git reset -q --hard HEAD && git clean -fdq src", wt)
-r = sh(f"git apply {out}/demo.diff && cargo test --offline {demo} 2>&1 | grep -E '^test result' | head -3", wt)
+sh("git reset -q --hard HEAD && git clean -fdq src tests", wt)
+r = sh(f"git apply {out}/demo.diff && cargo test --offline {demo} 2>&1 | grep -E '^test result' | head -8", wt)
 log.append(("orig+demo", r.stdout.strip()))
-ok_a = " 0 failed" in r.stdout and "passed" in r.stdout and not r.stdout.startswith("test result: ok. 0 passed")
-r = sh(f"git apply {out}/patch.diff && cargo test --offline 2>&1 | grep -E '^test result' | head -3", wt)
+import re
+def counts(txt):
+    ps = sum(int(x) for x in re.findall(r"(\d+) passed", txt)); fs = sum(int(x) for x in re.findall(r"(\d+) failed", txt))
+    return ps, fs
+pa, fa = counts(r.stdout)
+ok_a = pa >= 1 and fa == 0 and "FAILED" not in r.stdout
+r = sh(f"git apply {out}/patch.diff && cargo test --offline 2>&1 | grep -E '^test result' | head -8", wt)
 log.append(("orig+demo+patch", r.stdout.strip()))
-first = r.stdout.strip().splitlines()[0] if r.stdout.strip() else ""
-ok_c = "FAILED" in first
-sh("git reset -q --hard HEAD && git clean -fdq src", wt)
-r = sh(f"git apply {out}/patch.diff && cargo test --offline 2>&1 | grep -E '^test result' | head -3", wt)
+ok_c = "FAILED" in r.stdout
+sh("git reset -q --hard HEAD && git clean -fdq src tests", wt)
+r = sh(f"git apply {out}/patch.diff && cargo test --offline 2>&1 | grep -E '^test result' | head -8", wt)
 log.append(("orig+patch", r.stdout.strip()))
 ok_b = "178 passed; 0 failed" in r.stdout
 print("confirm: demo passes on original:", ok_a, "| suite passes with patch:", ok_b, "| demo fails with patch:", ok_c)
@@ -44,12 +50,12 @@ if ok_a and ok_b and ok_c:
             if r.returncode != 0 and line:
                 rp = line[-1].split("replay=")[1].split(" ")[0]
                 if os.path.exists(rp):
-                    os.makedirs(f"/verif/seeded/{ID}", exist_ok=True)
-                    shutil.copy(rp, f"/verif/seeded/{ID}/replay_{p}.json")
+                    os.makedirs(f"/verif/seeded/{SID}", exist_ok=True)
+                    shutil.copy(rp, f"/verif/seeded/{SID}/replay_{p}.json")
     finally:
         sh("git checkout -q -- .", "/repo")
     assert sh("git status --porcelain", "/repo").stdout.strip() == ""
-d = f"/verif/seeded/{ID}"
+d = f"/verif/seeded/{SID}"
 os.makedirs(d, exist_ok=True)
 shutil.copy(f"{out}/patch.diff", d)
 shutil.copy(f"{out}/demo.diff", d)
